@@ -149,6 +149,16 @@ def run_known(work, vh, prop, seed, focus):
             notes.append("finding %s no longer reproduces" % kf["name"])
         for f in other:
             viols.append(("kf-" + kf["name"], prog, f))
+    # the dedicated programs of repaired findings stay as regression programs: every failing clause is a violation
+    for kf in vlib.load_known().get("regress", []):
+        if kf.get("property") != prop:
+            continue
+        prog = kf["program"]
+        tf, events, dt = vlib.execute(work, vh, "rg-" + kf["name"], [prog], kf["stores"], kf.get("obs", ["refs", "sess"]), seed)
+        v = vlib.validate(work, "rg-" + kf["name"], tf, focus)
+        notes.append("regression program of the repaired finding %s (%s): %d events, %d failing" % (kf["name"], kf.get("fixed_by", ""), events, len(v["fails"])))
+        for f in v["fails"]:
+            viols.append(("rg-" + kf["name"], prog, f))
     return lines, viols, notes
 
 
